@@ -48,6 +48,10 @@ def burst_op(rng, names: list[str], fnames: list[str]) -> dict:
     """One management operation of a burst (the objects it names usually exist: the setup creates them)."""
     r = rng.random()
     w = rng.randrange(3)
+    if rng.random() < 0.2:
+        # a player's request served together with the management operations
+        return {"op": "get", "which": w, "what": rng.choice(["manifest", "manifest", "init", "media"]),
+                "tmpl": rng.randrange(17), "which_file": rng.randrange(4), "n": rng.randrange(3)}
     if r < 0.18:
         fn = rng.choice(fnames[:3])
         return {"op": "upload", "which": w, "file": forged_file(rng, fn)}
@@ -361,6 +365,14 @@ class Oracle:
             self.known_bad.add(key)
             sim.violate(rule, f"after=burst:{ops}", f"{detail}; after the concurrent requests "
                                                      f"{[r['method'] + ' ' + r['url'][:80] for r in reqs]}")
+        # a listed stream serves its manifests and media or fails with a clean 4xx - also while it is being modified
+        for req, resp in zip(reqs, outcome["results"]):
+            if req["recipe"]["op"] == "get" and resp.status >= 500 and reqs.index(req) not in outcome["aborted"]:
+                from ..world import exc_site
+                others = "+".join(sorted(r["recipe"]["op"] for r in reqs if r is not req))
+                sim.violate("listed-5xx", f"{req['recipe'].get('what')}/{exc_site(resp.exc)}/during-burst:{others}",
+                            f"{resp.status} for GET {req['url']} served concurrently with {others}: "
+                            f"{type(resp.exc).__name__ if resp.exc else ''}: {str(resp.exc)[:200]}")
         # what the concurrent requests answered (5xx: C16's subject) and whether the outcome equals some sequential
         # order (no listed property states it in general; C15 judges the CSRF part) are counted, not judged here
         for i, resp in enumerate(outcome["results"]):
